@@ -211,3 +211,13 @@ class Collector(object):
                     self.calls.append((rec.pop('kind'), rec))
             shutil.rmtree(self.dir, ignore_errors=True)
         return False
+
+
+def interp_lib():
+    """scipy.interpolate as the run sees it: the exact models in symbolic runs, the real library in replays
+    (independent of the name under which the library imports it)"""
+    from symnp import stubs
+    if stubs.ACTIVE[0]:
+        return stubs.INTERP
+    import scipy.interpolate
+    return scipy.interpolate
